@@ -194,3 +194,124 @@ fn strip_next_str_onecall_n3() {
 fn strip_next_str_onecall_n4() {
     next_str_onecall::<4>();
 }
+
+// ---- the callee's contract as an executable stand-in (modular verification of callers) ----
+
+/// canonical accumulator for an abstract S5 state (built through the real `add`)
+pub(crate) fn canon_utf8(u: u8) -> Utf8Parser {
+    let mut p = Utf8Parser::default();
+    match u {
+        1 => { let _ = p.add(0xc2); }
+        2 => { let _ = p.add(0xe1); }
+        3 => { let _ = p.add(0xf1); }
+        4 => { let _ = p.add(0xe0); }
+        5 => { let _ = p.add(0xed); }
+        6 => { let _ = p.add(0xf0); }
+        7 => { let _ = p.add(0xf4); }
+        _ => {}
+    }
+    p
+}
+
+pub(crate) fn abstract_utf8(p: &Utf8Parser) -> u8 {
+    let mut u = 1u8;
+    while u <= 7 {
+        if *p == canon_utf8(u) {
+            return u;
+        }
+        u += 1;
+    }
+    0
+}
+
+/// `next_bytes` replaced by its contract (verus:strip_scan::next_bytes, scan_post): same
+/// signature, result computed from the S3 model.  Used with #[kani::stub] so that callers
+/// are verified against the callee's contract, not its body.
+/// Restricted to inputs without UTF-8 lead bytes (the harness alphabets guarantee it): the
+/// carried state then never is Utf8 and the accumulator stays untouched at ground.
+pub(crate) fn next_bytes_contract<'s>(
+    bytes: &mut &'s [u8],
+    state: &mut State,
+    _utf8parser: &mut Utf8Parser,
+) -> Option<&'s [u8]> {
+    let all: &'s [u8] = *bytes;
+    let (k, n, fs, fu) = model_scan(*state, 0, all, all.len());
+    assert!(fs != State::Utf8 && fu == 0, "harness alphabet holds no UTF-8 lead byte");
+    let (_, rest) = all.split_at(k);
+    let (piece, rest) = rest.split_at(n);
+    *bytes = rest;
+    *state = fs;
+    if n == 0 {
+        None
+    } else {
+        Some(piece)
+    }
+}
+
+pub(crate) fn strip_bytes_with(state: State, u: u8) -> StripBytes {
+    StripBytes { state, utf8parser: canon_utf8(u) }
+}
+
+pub(crate) fn strip_bytes_parts(s: &StripBytes) -> (State, bool) {
+    (s.state, s.utf8parser == Utf8Parser::default())
+}
+
+// ---- recording stand-in for `next_bytes`: the scanner as an *uninterpreted* contract ----
+//
+// Callers (`strip::write`, `write_all`) never inspect bytes; they only route slices and states.
+// This stand-in has the signature of `next_bytes`, returns an arbitrary result of the *shape*
+// guaranteed by verus:strip_scan::next_bytes (scan_post: a sub-slice `old[k..k+n]`, n >= 1,
+// rest `old[k+n..]`, or None with the input exhausted) and an arbitrary new state, and records
+// what it was called with.  The harness then checks the caller's plumbing against the record.
+
+pub(crate) const REC_MAX: usize = 8;
+
+#[derive(Copy, Clone)]
+pub(crate) struct ScanCall {
+    pub(crate) in_ptr: usize,
+    pub(crate) in_len: usize,
+    pub(crate) in_state: State,
+    pub(crate) k: usize,
+    pub(crate) n: usize,
+    pub(crate) out_state: State,
+}
+
+pub(crate) static mut REC: [ScanCall; REC_MAX] = [ScanCall { in_ptr: 0, in_len: 0, in_state: State::Ground, k: 0, n: 0, out_state: State::Ground }; REC_MAX];
+pub(crate) static mut REC_N: usize = 0;
+
+pub(crate) fn next_bytes_recorder<'s>(
+    bytes: &mut &'s [u8],
+    state: &mut State,
+    _utf8parser: &mut Utf8Parser,
+) -> Option<&'s [u8]> {
+    let all: &'s [u8] = *bytes;
+    let len = all.len();
+    let k = vk::any_usize_in(0, len);
+    let n = vk::any_usize_in(0, len - k);
+    // scan_post shape: a piece is non-empty; nothing returned means the input is exhausted
+    vk::assume(if n == 0 { k == len } else { true });
+    let out_state = state_of(vk::any_u8_in(1, 15));
+    unsafe {
+        if REC_N < REC_MAX {
+            REC[REC_N] = ScanCall { in_ptr: all.as_ptr() as usize, in_len: len, in_state: *state, k, n, out_state };
+        }
+        REC_N += 1;
+    }
+    let (_, rest) = all.split_at(k);
+    let (piece, rest) = rest.split_at(n);
+    *bytes = rest;
+    *state = out_state;
+    if n == 0 {
+        None
+    } else {
+        Some(piece)
+    }
+}
+
+pub(crate) fn strip_bytes_state(s: &StripBytes) -> State {
+    s.state
+}
+
+pub(crate) fn strip_bytes_in_state(s: State) -> StripBytes {
+    StripBytes { state: s, utf8parser: Utf8Parser::default() }
+}
